@@ -10,6 +10,11 @@ claimed = {
  "C17": ("other", "Go-side proof that write/read/exists emit the specified templates with the arguments in their positions; what the file system then holds is Bash's doing and is trusted.", "§5 C17"),
 }
 claimed.update({
+ "C08": ("proof", "Per emitting site of the Bash converter the emitted line, as an SMT string with symbolic operands, is proved equal to a template in which the operand sits inside one pair of double quotes (assignment, concatenation, comparison, print, call argument, parameter binding, return register, substring, exists/read path), input() reads raw lines, the lexer's char() returns the byte itself. The sites where the property does NOT hold on the unchanged tree are stated from the property, fail with a counter-model, and are listed as known findings with witnesses (no escaping of double-quote specials, echo options, eval-based slice stores and write()).", "§5 C08"),
+ "C11": ("other", "Proved (unbounded): char() returns exactly the byte, Tokenize index safety / progress facts, no blank or comment token is ever appended, the result ends with an EOF token on success, the string scanner gives up only at the end of the input, CRLF normalisation is exactly ReplaceAll(\\r\\n -> \\n). The functional longest-match specification and the row/column bookkeeping are NOT proved (they need a model of Go's regexp semantics) and no bounded stand-in is claimed.", "§5 C11"),
+ "C12": ("other", "Single-run sufficient conditions only: CRLF normalisation is exact, blanks and comments never reach the token list, a declaration consumes values at most once. The two-run theorem (same bytes for every re-layout) is argued in DESIGN.md, not machine-checked; newline tolerance of the import group / switch header is a known gap.", "§5 C12"),
+ "C14": ("other", "Single-run sufficient conditions: Transpile creates exactly one fresh parser per run before parsing, the transpiler object keeps nothing but the converter, parser.New starts with an empty state, and every loop that ranges over a map (all packages except the CLI) passes a conservative map-order-independence analysis (its body only writes the map entry of the current key). The inference to byte-identical output across runs is argued, not machine-checked.", "§5 C14"),
+ "C19": ("proof", "Contracts on tsh.go with os/filepath uninterpreted and logged: parseOptions returns only with non-empty in/out/converters (every other exit is a panic = non-zero status); main performs exactly one Transpile and one os.WriteFile per requested target, the write follows a successful Transpile of the same target, a failed write or transpile panics before anything else is written for that target, the bytes are the library's result and the file name is Base(in) without Ext(in) plus the target's extension. Two genuine defects were repaired (singleton converters, ignored write error).", "§5 C19"),
  "C13": ("proof", "Zero-annotation safety sweep over every function of lexer, parser, transpiler, both converters and tsh.go: each index/slice bound, nil map write, nil dereference, single-value type assertion, division and reachable panic is a named obligation; 907 of 1067 are discharged on the unchanged tree (the ledger) and are what is claimed; the remaining 160 need preconditions about the AST / token list that are not yet stated and are reported as undecided, never as proved.", "§5 C13"),
  "C06": ("proof", "'accepted implies well-typed' proved by structural induction over the parser: a recursive typing predicate specTyped (Go rules for the shared syntax, README signatures for builtins) is the postcondition of every expression-parsing function (precedence chain, binary/logical/comparison/unary, primary expressions, subscripts, builtins, calls); call arguments and slice literal elements by quantified postconditions (arity and per-position parameter types); operator tables of both converters are proved equal to the same spec tables (error iff not allowed), which is the target-independence half.", "§5 C06"),
  "C07": ("proof", "Scope placement checks as postconditions (break/continue/return only inside the right construct via a recursive scope-stack predicate, function definitions only at top level, a second function of the same name rejected). The frame part (definitions never escape their block: context clones) is not yet under contract.", "§5 C07"),
@@ -19,6 +24,11 @@ claimed.update({
  "C18": ("other", "Only the transpiler half so far: a call chain leads to exactly one converter AppCall with the value-used flag. The word-level quoting clause on bash.AppCall is not yet under contract.", "§5 C18"),
 })
 notes = {
+ "C08": "Trusted: Bash quoting rules (manual 3.1.2). Batch data paths are not claimed under C08. The six failing clauses are known findings (known_findings.txt), not proved.",
+ "C11": "Uninterpreted regexp model with shape axioms (prefix, non-empty match decided by running the real regexp engine on the constant pattern). Column bookkeeping after block comments is not covered (a seeded change there is missed, see DESIGN.md).",
+ "C12": "Relational property: only the listed single-run facts are machine-checked.",
+ "C14": "The map-order analysis is syntactic (go/ssa), not SMT; process-level nondeterminism other than map iteration (none exists in the code: no goroutines, no time, no random) is excluded by the outside-subset check.",
+ "C19": "Trusted: os.Stat/WriteFile, filepath.Base/Ext/Join uninterpreted with the assumed fact that Ext(p) is a suffix of Base(p); a panic is the non-zero exit (Go runtime fact). 'never modifies its input' (output path differs from input path) is not proved.",
  "C13": "Termination (import cycles, parser recursion) is not proved: no decreases clauses yet. Mathematical integers (A1); stack depth and memory exhaustion not modelled. Undecided obligations are listed in the evidence.",
  "C06": "Statement-level typing (definitions/assignments/returns/conditions) is not yet under contract; ordering comparison of strings, the argument type of panic and print are unspecified and not demanded. Library models: strconv.Atoi/ParseBool uninterpreted.",
  "C07": "Map-heap frame conditions for context cloning are pending; see DESIGN.md §5 C07.",
@@ -29,7 +39,7 @@ notes = {
  "C01": "Trusted: Bash semantics of $(( )), [ ], $(if ..), while/break/continue, echo, exit (spec/shell_facts.md); govc itself; SMT solvers; library models (Sprintf, Join, Itoa). Parser precedence chain and transpiler call order are covered by C06/C04 checks as they come online.",
  "C02": "Trusted: Bash semantics of functions, local, positional parameters, return; assumption A2 (FuncCall writes the quoted arguments through the caller's slice).",
  "C03": "Trusted: Bash arrays, eval-based indirect expansion, ${v:o:l}, ${#v}; pinned helper bodies are compared with a reviewed constant, their meaning is not proved.",
- "C10": "Only the emitter side for the Bash converter is proved so far; the user-side disjointness (no check exists in the parser) is a known gap listed in DESIGN.md.",
+ "C10": "Emitter side proved for both converters (helper, register, label, flag and mangled names have the reserved shape). The user side (no check keeps user identifiers out of the reserved shapes) is a known finding with a witness.",
  "C16": "bash -n is not run by the deciding step; that balanced protocol + non-empty bodies implies syntactic validity is a shell fact. Batch side pending.",
  "C17": "Trusted: > / >> redirection, echo's newline, $(cat f), [ -e f ]. Quoting of path/content inside the eval string is C08's business (known finding).",
 }
